@@ -35,11 +35,18 @@ type D struct {
 	ID   int64 `graphql:"id,key"`
 	Tags []string
 }
+// F shares its key space with A (as auto-increment ids of two tables do), so
+// a union value can switch from an A to an F with the same __key.
+type F struct {
+	ID   int64 `graphql:"id,key"`
+	Tags []string
+}
 type U struct {
 	schemabuilder.Union
 	*A
 	*B
 	*C
+	*F
 }
 
 type ref struct {
@@ -69,6 +76,7 @@ type world struct {
 	rootBs []int
 	ds     []D
 	rootDs []int
+	fs     []*F
 
 	// fault plan (C16): failing (field, object id) instances
 	fail map[string]failure
@@ -125,10 +133,19 @@ func newWorld(c *runner.Ctx) *world {
 		}
 		return l
 	}
+	for i := 0; i < w.nA; i++ {
+		f := &F{ID: int64(100 + i)}
+		for j, k := 0, pick(c, 3, "f-tags"); j < k; j++ {
+			f.Tags = append(f.Tags, fmt.Sprintf("ft%d", pick(c, 3, "f-tag")))
+		}
+		w.fs = append(w.fs, f)
+	}
 	anyRef := func(kind string) ref {
-		switch pick(c, 4, kind) {
+		switch pick(c, 5, kind) {
 		case 0:
 			return ref{}
+		case 4:
+			return ref{"F", int64(pick(c, w.nA, kind+"-f"))}
 		case 1:
 			return ref{"A", int64(pick(c, w.nA, kind+"-a"))}
 		case 2:
@@ -224,6 +241,8 @@ func (w *world) u(r ref) *U {
 		return &U{B: w.bs[r.id]}
 	case "C":
 		return &U{C: w.cs[r.id]}
+	case "F":
+		return &U{F: w.fs[r.id]}
 	}
 	return nil
 }
@@ -422,6 +441,8 @@ func (w *world) build(withMutation bool) (*graphql.Schema, error) {
 		}
 		return w.vVal(d.ID), nil
 	})
+
+	s.Object("F", F{})
 
 	oa := s.Object("A", A{})
 	w.register(oa, "tag", func(ctx context.Context, a *A, args struct{ X int64 }) (string, error) {
